@@ -334,6 +334,35 @@ pub fn run<W: Write>(opts: &Opts, out: &mut W) {
             c.webp(&format!("{name}-x{k}"), "splice", &Sparse::from_bytes(&v), r.chance(1, 2));
         }
     }
+    // sub-images that cost no input per pixel, on the largest declarable dimensions (an animation frame of 2^24 x 2^24
+    // with a lossless ALPH: the pixel count saturates at u32::MAX; a 16384 x 16384 VP8L): the validator must return
+    // in bounded time - whichever of the five codes is the zero-bit one
+    for green in 0..3u32 {
+        for two in 0..5u32 {
+            let mut r = rng.fork(8800 + (green * 8 + two) as u64);
+            let stream = crate::synth::zero_bit_subimage(&mut r, green, two);
+            let mut alph = vec![1u8];
+            alph.extend_from_slice(&stream);
+            let dim = 1u32 << 24;
+            let mut p = vec![0u8; 6];
+            p.extend_from_slice(&(dim - 1).to_le_bytes()[..3]);
+            p.extend_from_slice(&(dim - 1).to_le_bytes()[..3]);
+            p.extend_from_slice(&[1, 0, 0, 0]);
+            p.extend(chunk(b"ALPH", &alph));
+            p.extend(chunk(b"VP8 ", VP8_DATA));
+            let file = riff(&[chunk(b"VP8X", &vp8x_payload(0x12, dim, 1)), chunk(b"ANIM", &[0; 6]), chunk(b"ANMF", &p)]);
+            c.webp(&format!("zero-bit-anmf-g{green}-t{two}"), "zero-bit-giant", &Sparse::from_bytes(&file), false);
+            let mut bw = crate::synth::BitWriter::new();
+            bw.bits(0x2f, 8);
+            bw.bits(16383, 14);
+            bw.bits(16383, 14);
+            bw.bit(false);
+            bw.bits(0, 3);
+            let mut v = bw.bytes;
+            v.extend_from_slice(&stream);
+            c.webp(&format!("zero-bit-vp8l-g{green}-t{two}"), "zero-bit-giant", &Sparse::from_bytes(&riff(&[chunk(b"VP8L", &v)])), false);
+        }
+    }
     // bit-level sweep of lossless streams: every bit of short synthesised streams flipped (reaches the prefix-code
     // and sub-image paths far more often than byte-level mutation of whole files)
     for k in 0..(if thorough { 40 } else { 6 }) {
